@@ -24,7 +24,11 @@ RULE = ('Reorg limit in {1,2,3,5,8, larger than the chain}; chains of 6..30 bloc
         'H-limit+1 survives. Depth limit+1 is attempted on a scratch copy at the end and its '
         'outcome recorded, not judged. Non-trivial = a reorg of depth == limit, or a block of the '
         'final window indexed before the daemon reached its final height, or a restart between '
-        'indexing and reorg.')
+        'indexing and reorg. Second part (the restart may follow a process death): chains of 5..10 '
+        'blocks, limit in {1,2,3}; the process dies just before a write operation inside a flush '
+        '(up to 10 generated cut points per scenario), the server is restarted, catches up, and the '
+        'daemon reorganises min(limit, H/2) deep: the reorganisation completes and the index '
+        'equals the model; non-trivial there = each (scenario, cut).')
 ASSUMPTIONS = ['LevelDB batch atomicity', 'FakeDaemon models bitcoind']
 BUDGET_S = {'quick': 130, 'thorough': 3000}
 
@@ -180,10 +184,114 @@ def body(ctx):
     return run
 
 
+# ---- the window after an unclean stop ---------------------------------------------------------------
+#
+# "... or before a restart": the restart may follow a process death.  The process dies just before
+# a write operation inside a flush that covers blocks of the window; the server is restarted,
+# catches up, and the daemon then reorganises `limit` deep (clamped to the precondition).
+
+CRASH_CASE = st.builds(
+    lambda base, limit, flushes, fork_blocks, spread: dict(
+        base, reorg_limit=limit, reveals=[],
+        flush=[flushes[i % len(flushes)] for i in range(len(base['blocks']))],
+        fork_blocks=fork_blocks, spread=spread),
+    scenario.sync_case(min_blocks=5, max_blocks=10, max_txs=3),
+    st.sampled_from([1, 2, 3]),
+    st.lists(st.sampled_from([0, 1, 2, 2]), min_size=2, max_size=10),
+    st.lists(scenario.block_desc(max_txs=3), min_size=1, max_size=3),
+    st.integers(0, 7))
+
+
+def run_crash_case(ctx_like, scratch, case, only_cut=None):
+    from pbt import crash
+    from pbt.node import fresh_dir, make_coin, observe
+    from pbt.storage import Controller
+    coin = make_coin(case['activation'], case['prefetch'])
+    plan = scenario.flush_plan_of(case)
+    limit = case['reorg_limit']
+    info = {'cuts': 0, 'executions': 0, 'nt_keys': [], 'depth': 0}
+    world0 = scenario.build_world(case)
+    ctl0 = Controller()
+    free = crash.run_node_phase(fresh_dir(scratch), world0, coin, limit, plan, ctl0,
+                                case.get('lat', ()))
+    info['executions'] += 1
+    if free['error'] or free['crashed']:
+        return f'crash-free run failed: {free["error"]}', 'crash_free', info
+    tip = world0.height
+    depth = max(1, min(limit, tip // 2))
+    info['depth'] = depth
+    window_lo = tip - limit + 1
+    # cut points: inside flushes (full or history-only), a generated spread of at most 10
+    inside = sorted({k for b, e, _ in crash.flush_spans(ctl0.marks) for k in range(b + 1, e)})
+    if only_cut is not None:
+        cuts = [only_cut]
+    else:
+        cuts = inside[case['spread'] % 3::max(1, len(inside) // 10)][:10] if inside else []
+    for k in cuts:
+        if ctx_like is not None and ctx_like.over_budget():
+            break
+        world = scenario.build_world(case)
+        db_dir = fresh_dir(scratch)
+        res = crash.run_node_phase(db_dir, world, coin, limit, plan, Controller(crash_at=k),
+                                   case.get('lat', ()))
+        info['executions'] += 1
+        info['cuts'] += 1
+        if res['error']:
+            return f'cut {k}: run before the cut failed: {res["error"]}', 'harness_phase', info
+        site = ':'.join(str(x) for x in ctl0.log[k][1:4]) if k < len(ctl0.log) else 'end'
+        label = (f'process death before write #{k} ({site}) of the initial sync to height {tip} '
+                 f'(reorg limit {limit}), restart')
+
+        async def script(node, world=world):
+            descs = list(case['fork_blocks'])
+            while len(descs) < depth + 1:
+                descs.append(descs[len(descs) % len(descs)])
+            descs = [dict(x, nonce=x.get('nonce', 0) + 23 + world.uid) for x in descs]
+            world.fork(depth, descs)
+            await asyncio.sleep(6)
+            await node.settle()
+        res2 = crash.run_node_phase(db_dir, world, coin, limit, {}, Controller(),
+                                    case.get('lat', ()), script=script)
+        info['executions'] += 1
+        info['nt_keys'].append(str(k))
+        if res2['error'] or res2['crashed']:
+            return (f'{label}, catch-up, then a reorganisation of depth {depth} (window starts at '
+                    f'{window_lo}): {res2["error"]}'), 'reorg_after_crash_fails', info
+        dd = scenario.diff(res2['obs'], W.Model(world.chain(), case['activation']))
+        if dd:
+            return (f'{label}, catch-up, reorganisation of depth {depth}: index differs from the '
+                    f'model: ' + '; '.join(dd[:3])), 'reorg_after_crash_differs', info
+    return None, None, info
+
+
+def body_crash(ctx):
+    from pbt.core import case_hash
+
+    def run(case):
+        msg, sig, info = run_crash_case(ctx, ctx.scratch, case)
+        ctx.evaluations += max(0, info['executions'] - 1)
+        h = case_hash(case)
+        for key in info['nt_keys']:
+            ctx.nontrivial.add(f'crash/{h[:16]}/{key}')
+        ctx.classes['crash.cuts_inside_flush'] += info['cuts']
+        if info['depth'] == case['reorg_limit']:
+            ctx.classes['crash.depth_eq_limit'] += info['cuts']
+        ctx.record(case=case, nontrivial=False, classes=['crash.scenario'],
+                   sample={'check': 'c15.crash', 'limit': case['reorg_limit'],
+                           'blocks': len(case['blocks']), 'cuts': info['cuts']})
+        if msg:
+            raise Violation(msg, sig)
+    return run
+
+
 def run(ctx):
     hyp_run(ctx, 'c15.machine', CASE, body(ctx), ctx.pick(150, 3000))
+    hyp_run(ctx, 'c15.crash', CRASH_CASE, body_crash(ctx), ctx.pick(6, 200))
 
 
 def replay(ctx, check, case):
+    if check == 'c15.crash':
+        msg, sig, _ = run_crash_case(None, ctx.scratch, case)
+        return (msg, sig) if msg else None
     msg, sig, _ = run_case(ctx.scratch, case)
     return (msg, sig) if msg else None
